@@ -33,6 +33,7 @@ type Value struct {
 	Fields map[string]Value
 	Path   string
 	Elems  []Value
+	Own    bool // slice: the backing store was allocated by the function under verification and has not been handed out (see fresh(s))
 }
 
 func Scalar(t *Term, T types.Type) Value { return Value{Kind: KScalar, S: t, T: T} }
@@ -110,6 +111,7 @@ func zip2(a, b Value, f func(x, y *Term) *Term) Value {
 		panic(engineErr("cannot combine values of different kinds: %v / %v", a, b))
 	}
 	r := a
+	r.Own = a.Own && b.Own
 	switch a.Kind {
 	case KScalar:
 		r.S = f(a.S, b.S)
